@@ -318,9 +318,9 @@ def run(ctx):
     for tls, delay in ((False, 0), (True, 0), (True, 1), (True, 2)):
         for k in range(K):
             jobs.append({"what": "enum", "tls": tls, "delay": delay, "L": L, "K": K, "k": k})
-        jobs.append({"what": "random", "tls": tls, "delay": delay, "k": 0, "N": ctx.pick(150, 3000)})
+        jobs.append({"what": "random", "tls": tls, "delay": delay, "k": 0, "N": ctx.pick(150, 15000)})
     jobs.append({"what": "loopback", "tls": False, "delay": 0, "k": 0, "N": ctx.pick(20, 200)})
-    ctx.shard(jobs, timeout=ctx.pick(120, 600))
+    ctx.shard(jobs, timeout=ctx.pick(120, 1500))
     ctx.floor("repeat_accept_Server", ctx.pick(500, 25000))
     ctx.floor("repeat_accept_ServerTls", ctx.pick(1500, 80000))
     ctx.floor("repeat_accept_loopback", ctx.pick(10, 100))
